@@ -14,7 +14,7 @@ use solana_sdk::{
 };
 use std::collections::HashMap;
 
-#[derive(Debug)]
+#[derive(Debug, Clone)]
 pub struct TxOut {
     pub result: Result<(), TransactionError>,
     pub events: Vec<TapEvent>,
